@@ -819,6 +819,12 @@ def c14_packets(r, toks, per_shape):
                "transfer/channel-7/transfer/channel-3/uusdc", "uusdc", "", "/", "transfer/channel-7/uusdc/", "transfer/channel-7/ibc/ABC"]:
         lines.append(pkt_line("recv", ftpd(dn, 1000, ORB, good)))
         lines.append(pkt_line("recv", ftpd(dn, 1000, U[0], "")))
+    # every denomination of the grid (the bare prefix, pieces of it, doubled slashes, slash-carrying natives …) with a valid
+    # payload to the orbiter, from every source the grid pairs them with
+    for dn in scen.DENOM_GRID:
+        for (sp, sc) in [("transfer", "channel-7"), ("transfer", "channel-70"), ("other", "channel-7")]:
+            lines.append(pkt_line("recv", ftpd(dn, 1000, ORB, good), src_port=sp, src_chan=sc))
+            lines.append(pkt_line("recv", ftpd(dn, 1000, ORB, memo(cctp_fwd(domain=0), [fee_action([(U[4], "b", 100)])])), src_port=sp, src_chan=sc))
     for sp, sc, dp, dc in [("", "channel-7", "transfer", "channel-0"), ("transfer", "", "transfer", "channel-0"), ("transfer", "channel-7", "transfer", "chan"),
                            ("transfer", "channel-7", "transfer", ""), ("transfer", "channel-7", "", "channel-0"), ("transfer", "channel-7", "transfer", "channel-18446744073709551616"),
                            ("tr ansfer", "channel-7", "transfer", "channel-0")]:
@@ -2216,7 +2222,11 @@ class C11(Base):
         tok = toks[0][0]
         kf, _ = scen.base_setup()
         kf += ["env hyp igp %s 1 10000000000 1 50000" % hx("stake"), "deposit %s %s 5000000" % (hx(ORB_BYTES), hx("stake")),
-               orb_pkt("recv", 10 ** 6, hyp_fwd(tok, domain=1, gas=100000, fee=("stake", 10 ** 6))), "env hyp noop"]
+               orb_pkt("recv", 10 ** 6, hyp_fwd(tok, domain=1, gas=100000, fee=("stake", 10 ** 6))), "env hyp noop",
+               # …and the same paymaster named by the payload itself while the mailbox default is the no-op hook again
+               orb_pkt("recv", 10 ** 6, hyp_fwd(tok, domain=1, gas=100000, fee=("stake", 10 ** 6),
+                                                 hook=b"router_post_dispatch" + (4).to_bytes(4, "big") + (1).to_bytes(8, "big"))),
+               orb_pkt("recv", 10 ** 6, hyp_fwd(tok, domain=1, gas=100000, fee=("stake", 10 ** 6)))]
         out.append(Stream("S3-igp-hook-corpus", kf, fields={"recv": ["ack", "bal"]}, oracle=c11_igp_oracle))
         out += shared_streams(seed, toks, tier, {"recv": ["ack", "bal", "mv", "st"], "recvh": ["ack", "bal", "hreq", "st"]}, c01_oracle,
                               skip=("attribute-shapes", "pause-levels", "spellings"))
@@ -2346,6 +2356,16 @@ def c16_lines(r, n):
     for a in ["1", "01", "010", "0x10", "0b11", "0o17", "1_000", "+5", "5", "-5", "0", "", " 1", "1e3", str(10 ** 25)]:
         lines.append(pkt_line("recv", ftpd("transfer/channel-7/uusdc", a, U[0], "")))
         lines.append(pkt_line("recvh", ftpd("transfer/channel-7/uusdc", a, ORB, good)))
+    # returning natives whose names contain slashes, with coins in escrow: released by ICS-20, processed by the orbiter
+    for d in ("a/b", "factory/noble1xyz/sub", "gamm/pool/7", "hyperlane/0x1234", "x/y/z", "aUSDY", "ausdy"):
+        lines.append("escrowfund %s %s %d" % (hx("channel-0"), hx(d), 10 ** 9))
+        lines.append(pkt_line("recv", ftpd("transfer/channel-7/" + d, 1000, U[0], "")))
+        for op in ("recv", "recvh"):
+            lines.append(pkt_line(op, ftpd("transfer/channel-7/" + d, 1000, ORB, good)))
+            lines.append(pkt_line(op, ftpd("transfer/channel-7/" + d, 1000, ORB, memo(int_fwd(U[1]), [fee_action([(U[4], "b", 100)])]))))
+    lines += ["query DispatchedAmountsBySrc %s nopage" % hx("PROTOCOL_IBC"), "query DispatchedAmountsByDst %s nopage" % hx("PROTOCOL_INTERNAL"), "export"]
+    for d in ("aUSDY", "ausdy", "AUSDY", "a/b", "x/y/z"):
+        lines.append("query DispatchedAmounts %s %s %s %s %s" % (hx("PROTOCOL_IBC"), hx("channel-0"), hx("PROTOCOL_INTERNAL"), hx("noble"), hx(d)))
     lines += scen.denom_grid(r, n)
     return lines
 
@@ -2450,7 +2470,8 @@ class C16(Base):
 
     def streams(self, tier, seed):
         r = Rng(seed * 1000 + 16)
-        f = {"pure": ["_"], "recv": ["ack", "bal", "mv"], "recvh": ["ack", "bal", "hreq", "st"], "dispatchh": ["res", "hreq", "bal", "st"]}
+        f = {"pure": ["_"], "recv": ["ack", "bal", "mv"], "recvh": ["ack", "bal", "hreq", "st"], "dispatchh": ["res", "hreq", "bal", "st"],
+             "query": ["res", "out"], "export": ["st"]}
         _, toks = scen.base_setup()
         f2 = {"recv": ["ack", "bal", "req", "mv", "st"], "recvh": ["ack", "bal", "hreq", "st"]}
         return [Stream("S1+S3-denominations-beside-ICS20", c16_lines(r, self.n(tier, 200, 2000)), fields=f, oracle=c16_oracle),
@@ -2496,6 +2517,23 @@ def c18_lines(r, n):
         lines.append("query Params")
         lines += probes(committed)
         lines += probes(dropped)
+    # every width and byte pattern of the 32-bit value: each power of two with its neighbours, every value of the top byte and of
+    # the low byte (however the number is stored, it is the number that was set): the query reports it, it is exported and
+    # imported as it is, and a small passthrough is inside every limit ≥ its size
+    pats = []
+    for k in range(32):
+        pats += [2 ** k, 2 ** k - 1, 2 ** k + 1]
+    pats += [b_ << 24 for b_ in range(1, 256)] + [(b_ << 24) | 0x808001 for b_ in (0x08, 0x0a, 0x10, 0x12, 0x80)] + [0x08808001, 0x0a000800, 0x7fffffff, 0x80000000, 0xfffffffe]
+    pats += [0x0800 | b_ for b_ in (0, 1, 0x7f, 0x80, 0xff)] + [(b_ << 8) | 0x08 for b_ in (0, 1, 0x7f, 0x80, 0xff)]
+    for j, v in enumerate(sorted(set(x for x in pats if 0 <= x < 2 ** 32))):
+        lines.append(msg_line("UpdateParams", AUTHORITY, str(v)))
+        lines.append("query Params")
+        L = 0 if v == 0 else min(v, 3)
+        lines.append(orb_pkt("recv", 1000, cctp_fwd(domain=0, passthrough=b"\xab" * L)))
+        if v < 4:
+            lines.append(orb_pkt("recv", 1000, cctp_fwd(domain=0, passthrough=b"\xab" * (v + 1))))
+        if j % 16 == 0:
+            lines += ["export", "reimport", "query Params"]
     for _ in range(n):
         v = r.choice(limit_values)
         signer = AUTHORITY if r.chance(4, 5) else U[0]
@@ -2578,7 +2616,11 @@ def c13_genesis_doc(r):
             cnts.append("%d|%s|%d|%s|%d" % (sp, hx(sc), dp, hx(dc), r.range(1, 50)))
             for dn in r.shuffle(["uusdc", "uother", "ueure", "uusd", "uusdcx"])[: r.range(1, 3)]:
                 # among them one-legged rows (only incoming, only outgoing: what a denomination-changing action leaves)
-                i_, o_ = r.choice([(r.range(1, 10 ** 9), r.range(0, 10 ** 9)), (0, r.range(1, 10 ** 9)), (r.range(1, 10 ** 9), 0), (r.range(1, 10 ** 9), r.range(1, 10 ** 9))])
+                # …and rows at the width of the stored integers: each leg may hold up to 2^256-1 on its own
+                big = 2 ** 256 - 1
+                i_, o_ = r.choice([(r.range(1, 10 ** 9), r.range(0, 10 ** 9)), (0, r.range(1, 10 ** 9)), (r.range(1, 10 ** 9), 0), (r.range(1, 10 ** 9), r.range(1, 10 ** 9)),
+                                   (big, big), (2 ** 255, 2 ** 255), (big, 1), (1, big), (2 ** 255 + 7, 2 ** 255 - 7), (big, 0), (0, big)] if r.chance(1, 3) else
+                                  [(r.range(1, 10 ** 9), r.range(1, 10 ** 9))])
                 amts.append("%d|%s|%d|%s|%s|%d|%d" % (sp, hx(sc), dp, hx(dc), hx(dn), i_, o_))
     return "pp=[];pcc=[];pa=[];params=0;amts=[%s];cnts=[%s]" % (",".join(amts), ",".join(cnts))
 
@@ -2767,7 +2809,8 @@ def c15_roundtrip_build(r, n, toks):
     expected canonical payload computed here. A share of the constructor calls is invalid (refused by both)."""
     from proto import Proc, IMPL
     p = Proc([IMPL])
-    lines = []
+    lines, _ = scen.base_setup()
+    lines = list(lines)
     expect = {}
     tok = toks[0][0]
     odd_denoms = ["", "a<b>&c", "q\"uote\\", "tab\there", "uni\u2028x\u00e9y\u2029", "\x7f~ ", "\x01\x1f\x08\x0c\n\r", "\U0001F600"]
@@ -2820,6 +2863,9 @@ def c15_roundtrip_build(r, n, toks):
             lines.append(l2)
             expect[len(lines) - 1] = "ok:" + fw + ";acts[" + ",".join(acts_c) + "]"
             lines.append("pure parse2 " + o[3:])
+            if r.chance(1, 3):
+                # …and the marshalled memo as a transfer through the whole stack: what the module writes, the module executes
+                lines.append(pkt_line("recv", ftpd("transfer/channel-7/uusdc", 10 ** 6, ORB, unhx(o[3:]).decode("utf-8", "surrogateescape"))))
     p.close()
     return lines, expect
 
@@ -2946,7 +2992,7 @@ class C15(Base):
                 s1l.append("pure parsel " + rr.choice(other_roots))
         return [Stream("S1-acceptance", s1, fields=f, oracle=c15_accept_oracle),
                 Stream("S1-one-parser-many-memos", s1l, fields=f),
-                Stream("S1-marshal-parse-roundtrip", rt, fields=f, oracle=c15_make_rt_oracle(expect), shrink=False),
+                Stream("S1-marshal-parse-roundtrip", rt, fields={"pure": ["_"], "recv": ["ack", "bal", "req"]}, oracle=c15_make_rt_oracle(expect), shrink=False),
                 Stream("S1-purity-16-fresh-decodes", pl, fields={}, oracle=c15_make_purity_oracle(groups), shrink=False)]
 
 
@@ -3008,6 +3054,24 @@ def c17_doc_lines(r, n):
             fixed.append(base + ";omit=" + ",".join(sub))
             fixed.append(base + ";nil=" + ",".join(sub))
     fixed.append(base + ";omit=adapter;nil=executor")
+    # two spellings that some normalisation would identify (leading zeros, case, blanks), side by side in every list: whatever
+    # validation accepts as two entries, initialisation stores as two entries
+    pairs = [(1, "channel-7", "channel-07"), (1, "channel-0", "channel-00000000000000000000"), (1, "channel-1", "channel-001"), (1, "channel-1", "Channel-1"),
+             (2, "1", "01"), (2, "7", "+7"), (3, "1", "01"), (3, "10", "10 "), (4, "noble", "Noble"), (4, "noble", "NOBLE"), (4, "a", "a "), (4, "a", " a"),
+             (4, "noble", "noble\x00")]
+    for (p_, a_, b_) in pairs:
+        fixed.append("pp=[];pcc=[%s,%s];pa=[];params=0;amts=[];cnts=[]" % (cc(p_, a_), cc(p_, b_)))
+        fixed.append("pp=[];pcc=[%s,%s];pa=[];params=0;amts=[];cnts=[]" % (cc(p_, b_), cc(p_, a_)))
+        src, dst = cc(1, "channel-0"), cc(4, "noble")
+        if p_ == 1:
+            fixed.append("pp=[];pcc=[];pa=[];params=0;amts=[%s|%s|%s|5|4,%s|%s|%s|7|6];cnts=[%s|%s|1,%s|%s|2]" % (
+                cc(p_, a_), dst, hx("uusdc"), cc(p_, b_), dst, hx("uusdc"), cc(p_, a_), dst, cc(p_, b_), dst))
+        else:
+            fixed.append("pp=[];pcc=[];pa=[];params=0;amts=[%s|%s|%s|5|4,%s|%s|%s|7|6];cnts=[%s|%s|1,%s|%s|2]" % (
+                src, cc(p_, a_), hx("uusdc"), src, cc(p_, b_), hx("uusdc"), src, cc(p_, a_), src, cc(p_, b_)))
+    for (a_, b_) in (("uusdc", "UUSDC"), ("uusdc", "uusdc "), ("ausdy", "aUSDY")):
+        fixed.append("pp=[];pcc=[];pa=[];params=0;amts=[%s|%s|%s|5|4,%s|%s|%s|7|6];cnts=[%s|%s|2]" % (
+            cc(1, "channel-0"), cc(4, "noble"), hx(a_), cc(1, "channel-0"), cc(4, "noble"), hx(b_), cc(1, "channel-0"), cc(4, "noble")))
     docs = fixed + [gen_genesis(r) for _ in range(n)]
     for i in range(n // 6):
         docs.append(gen_genesis(r) + ";" + r.choice(["omit", "nil"]) + "=" + ",".join(r.shuffle(secs)[: r.range(1, 2)]))
@@ -3203,8 +3267,12 @@ def c19_make_oracle(lines, nproc):
         import concurrent.futures
         from proto import IMPL, run_batch
 
-        def one(_):
-            o, rc, err = run_batch([IMPL], lines)
+        # every replay is a node of its own: its own process, and its own log level (node configuration, not consensus
+        # state — nothing observable may depend on it; the first run, the one compared with, has the no-op logger)
+        levels = ["debug", "trace", "info", "", "error", "warn"]
+
+        def one(k):
+            o, rc, err = run_batch([IMPL], lines, env={"VERIF_LOGLEVEL": levels[k % len(levels)]})
             return o
         with concurrent.futures.ThreadPoolExecutor(max_workers=min(8, nproc)) as ex:
             runs = list(ex.map(one, range(nproc - 1)))
